@@ -714,8 +714,107 @@ def run_fevents(kind, abort, root, texthex):
     return ";".join(out)
 
 
+def run_pretty(abort, root, hexs):
+    """C14: rows of the pretty printer for the events of a decode (what was emitted before any exception);
+    also runs the events printer.  Rows separated by \\x1e."""
+    from tpmstream.io.events import Events
+    from tpmstream.io.pretty import Pretty
+
+    evs, out, exc = collect(abort, root, hexs)
+    raw = [e[2] for e in evs]
+    try:
+        lines = list(Pretty.unmarshal(iter(raw)))
+    except Exception as e:  # noqa
+        return "CRASH pretty %s" % crash_name(e)
+    try:
+        elines = list(Events.unmarshal(iter(raw)))
+    except Exception as e:  # noqa
+        return "CRASH events %s" % crash_name(e)
+    if len(elines) != len(raw):
+        return "EVENTSPRINTER %d lines for %d events" % (len(elines), len(raw))
+    rows = []
+    for l in lines:
+        r = parse_pretty(l)
+        if r is None:
+            rows.append("?" + ANSI.sub("", l))
+        elif "warning" in r:
+            rows.append("W")
+        elif r["type"] == "":
+            rows.append("B|%d|%s|%s" % (r["depth"], r["name"], r["value"].split(" ")[0]))
+        else:
+            rows.append("F|%s|%d|%s|%s|%s" % (r["type"], r["depth"], r["name"], r["hex"] or "-", r["value"]))
+    return "\x1e".join(rows)
+
+
+def run_cliexp(fmt_in, fmt_out, typ, cmd, path):
+    """what the library produces for the bytes of file [path] (colour codes stripped): the expected stdout of
+    `tpmstream convert --in fmt_in --out fmt_out [--type typ [--command cmd]] path`"""
+    import binascii
+
+    from tpmstream.io.auto import Auto
+    from tpmstream.io.events import Events
+    from tpmstream.io.hex import Hex
+    from tpmstream.io.pcapng import Pcapng
+    from tpmstream.io.pretty import Pretty
+    from tpmstream.io.swtpm_log import SWTPMLog
+
+    fi = {"auto": Auto, "binary": Binary, "hex": Hex, "pcapng": Pcapng, "swtpm-log": SWTPMLog}[fmt_in]
+    fo = {"binary": Binary, "events": Events, "pretty": Pretty}[fmt_out]
+    data = open(path, "rb").read()
+    kw = {}
+    if typ == "-":
+        t = CommandResponseStream
+    else:
+        t = TYPES.get(("S", typ))
+        if typ == "Response":
+            kw["command_code"] = next(cc for cc in TPM_CC if str(cc) == "TPM_CC." + cmd)
+    out = []
+    try:
+        for line in fo.unmarshal(fi.marshal(tpm_type=t, buffer=data, abort_on_error=False, **kw)):
+            if isinstance(line, bytes):
+                out.append(" " + binascii.hexlify(line).decode())
+            else:
+                out.append(ANSI.sub("", line) + "\n")
+        status = "0"
+    except Exception as e:  # noqa
+        status = "EXC:" + type(e).__name__
+    return status + "\x1e" + "".join(out).replace("\n", "\x1f")
+
+
+def run_typeexp(fmt_in, path):
+    """`tpmstream type`: the types (and response command codes) under which the file decodes strictly"""
+    from tpmstream.io.auto import Auto
+    from tpmstream.io.hex import Hex
+    from tpmstream.io.pcapng import Pcapng
+    from tpmstream.io.swtpm_log import SWTPMLog
+
+    fi = {"auto": Auto, "binary": Binary, "hex": Hex, "pcapng": Pcapng, "swtpm-log": SWTPMLog}[fmt_in]
+    data = open(path, "rb").read()
+    names = []
+    for t in all_types:
+        if t is CommandResponseStream or t.__name__.startswith("TPMU"):
+            continue
+        ccs = list(TPM_CC) if t is Response else [None]
+        for cc in ccs:
+            try:
+                for _ in fi.marshal(tpm_type=t, buffer=data, command_code=cc, abort_on_error=True):
+                    pass
+                names.append("Response (%s)" % cc if t is Response else t.__name__)
+            except (InputStreamBytesDepletedError, InputStreamSuperfluousBytesError, ConstraintViolatedError):
+                pass
+            except Exception as e:  # noqa
+                names.append("EXC:%s:%s" % (t.__name__, type(e).__name__))
+    return "\x1f".join(names)
+
+
 def handle(line):
     parts = line.split(" ")
+    if parts[0] == "cliexp":
+        return run_cliexp(*parts[1:6])
+    if parts[0] == "typeexp":
+        return run_typeexp(parts[1], parts[2])
+    if parts[0] == "pretty":
+        return run_pretty(parts[2] == "1", parts[3], parts[4])
     if parts[0] == "fe":
         return run_fe(parts[1], parts[2])
     if parts[0] == "fevents":
